@@ -72,10 +72,13 @@ def check_c06(args):
                 cut = rnd.choice([len(vals), len(vals) // 2]) if vals else 0
                 chunks = [vals[:cut], vals[cut:]] if 0 < cut < len(vals) else [vals]
                 start = rnd.choice([0, 0, len(vals) // 3, max(len(vals) - 1, 0), len(vals)]) if vals else 0
-                cases.append({"id": str(cid), "ty": ty, "nullable": nullable, "encode": encode, "block": block,
-                              "chunks": [[enc(x) for x in c] for c in chunks if c or len(chunks) == 1],
-                              "start": start, "seed": rnd.randrange(1, 2 ** 31)})
-                cid += 1
+                # several read programs per column (different start rows and seeds)
+                for k in range(4):
+                    cases.append({"id": str(cid), "ty": ty, "nullable": nullable, "encode": encode, "block": block,
+                                  "chunks": [[enc(x) for x in c] for c in chunks if c or len(chunks) == 1],
+                                  "start": start if k == 0 else rnd.choice([0, 0, 1, len(vals) // 5]),
+                                  "seed": rnd.randrange(1, 2 ** 31)})
+                    cid += 1
     cases = [c for c in cases if any(c["chunks"])]        # an empty row-set can not be built
     outs = run_sharded("column", cases, tag="c06", timeout=3000, case_timeout=60)
     recs, meta = [], {}
